@@ -591,7 +591,14 @@ func genPlan(t *rapid.T) *Plan {
 func TestPlans(t *testing.T) {
 	rapid.Check(t, func(t *rapid.T) {
 		p := genPlan(t)
-		stats.Eval()
+		nops := 0
+		for _, w := range p.Writers {
+			nops += len(w)
+		}
+		for _, r := range p.Readers {
+			nops += len(r)
+		}
+		stats.EvalN(nops) // evaluations = planned operations
 		if err := run(p, true); err != nil {
 			stats.Fail("concurrent-plan", p, "%v", err)
 			t.Fatalf("%v", err)
